@@ -34,6 +34,9 @@ def scenarios(tier):
         {"g": [[1, 2], [], []], "kinds": ["cmd", "cmd", "exp"], "pars": [False, True, True], "jobs": 2},
         {"g": [[1, 2], [], []], "kinds": ["combine", "exp", "exp"], "pars": [False, False, False], "jobs": 1},
         {"g": [[1, 2], [2], []], "kinds": ["exp", "exp", "exp"], "pars": [True, True, True], "jobs": 3},
+        # git project with cached versions at ancestor commits: planning talks to git (is_ancestor / get_distance) before anything runs
+        {"g": [[1, 2], [], []], "kinds": ["cmd", "exp", "exp"], "pars": [False, False, False], "jobs": 1, "git": True,
+         "cached": {"1": "c1" * 20, "2": "c2" * 20}, "two_versions": True, "empty_index": True},
     ]
     if tier == "thorough":
         for g in rungrid.graphs_upto((2, 3)):
@@ -96,7 +99,10 @@ def check(inj, state, obs, viol_cb, art):
         if pid not in termed:
             viol_cb("abort:not-terminated:%s" % inj.fired_at[0],
                     "abort at %s: %s (pid %d) was running and never received SIGTERM" % (where, key, pid), art)
+    pre = {(r[0], r[1]) for r in (obs.scn.get("index_rows") or [])}
     for row in obs.rows or []:
+        if (row[0], row[1]) in pre:
+            continue  # recorded before this invocation
         if row[0] not in state.get("exited0", set()) and not any(
                 p.key == row[0] and p.status == 0 for p in obs.vk.procs.values()):
             viol_cb("abort:unfinished-recorded", "abort at %s: version recorded for %s whose process had not exited 0" % (where, row[0]), art)
